@@ -24,6 +24,7 @@ from typing import Any
 
 from happysimulator.core.entity import Entity
 from happysimulator.core.event import Event
+from happysimulator.core.sim_future import SimFuture
 
 logger = logging.getLogger(__name__)
 
@@ -149,16 +150,18 @@ class Mutex(Entity):
 
         # Create a flag that will be set when we get the lock
         acquired = [False]
+        wake = SimFuture()
 
         def on_wake():
             acquired[0] = True
+            wake.resolve()
 
         waiter = _Waiter(callback=on_wake, enqueue_time_ns=enqueue_time)
         self._waiters.append(waiter)
 
-        # Yield control until woken
-        while not acquired[0]:
-            yield 0.0
+        # Park until woken (no simulated activity while waiting)
+        if not acquired[0]:
+            yield wake
 
         # Now we have the lock
         self._owner = owner
